@@ -97,10 +97,14 @@ def check_mirror(P, ctx):
     # the rotations are no longer compared textually: they are interpreted by the shape analysis wherever a fix-up uses them
     pairs = [(P.slot('Tree', 'Iter', 'iter_next'), P.slot('Tree', 'Iter', 'iter_prev')),
              (P.slot('Tree', 'Iter', 'iter_init'), P.slot('Tree', 'Iter', 'iter_last'))]
+    from . import inline
+    spine = {n: P.fn(n) for n in ('Tree_Maximum',) if P.fn(n, required=False)}
     for a, b in pairs:
         fa, fb = P.fn(a), P.fn(b)
         ctx.fn(fa)
         ctx.fn(fb)
+        # a spine walk may be open-coded on one side and a helper call on the other: compare with the helper spliced in
+        fa, fb = inline.splice_into(fa, spine), inline.splice_into(fb, spine)
         d = mirror.first_difference(mirror.canon_body(fa, swap), mirror.canon_body(fb, {}))
         ctx.check(d is None, rule, '%s<->%s' % (a, b), site(fb), 'the two functions are mirror images of each other under Left<->Right', ['first difference: %s' % d] if d else None)
     ctx.floor(rule, 2)
@@ -478,6 +482,8 @@ def run(ctx, load):
         check_layout(Pc, ctx)
         check_mirror(Pc, ctx)
         check_descent(Pc, ctx)
+        check_rb_invariant(Pc, ctx)
+        check_rb_operations(Pc, ctx)
         ctx.config = 'default'
 
 
